@@ -147,7 +147,15 @@ def run_program(mg, base, lines, res, make_setup=None, invalid_backprop_ok=False
         T = S.env_mg()
         Lterm = None
         for ln in lines:
-            vp.run_line(ln, T)
+            try:
+                vp.run_line(ln, T)
+            except mg.errors.InvalidBackprop:
+                raise
+            except Exception as e:  # noqa
+                if invalid_backprop_ok:
+                    # C09 mode: a statement of the history itself failed loudly; the property only constrains L.backward()
+                    return S, ("history-raised", type(e).__name__, ln), Lterm
+                raise
             if ln.startswith("L = "):
                 Lt = terms_of(T["L"].data)  # recorded when L is created
                 Lterm = diff.weighted_sum(Lt, [tm.const(1)] * len(Lt))
@@ -171,6 +179,12 @@ def run_program(mg, base, lines, res, make_setup=None, invalid_backprop_ok=False
         S, grads, Lterm = p.out
         if grads is None:
             res["invalid_backprop"] = res.get("invalid_backprop", 0) + 1
+            continue
+        if isinstance(grads, tuple) and grads and grads[0] == "history-raised":
+            res["history_statement_raised"] = res.get("history_statement_raised", 0) + 1
+            res.setdefault("history_statement_raised_examples", [])
+            if len(res["history_statement_raised_examples"]) < 3:
+                res["history_statement_raised_examples"].append("%s in `%s` of `%s`" % (grads[1], grads[2], "; ".join(lines)))
             continue
         A, hist, _ = twin_run(S, lines)
         Ltwin = _scalar(A["L"])
